@@ -348,6 +348,9 @@ class SchedLock:
         if s is None:
             if self.mutex.owner is not None and not blocking:
                 return False
+            if self.mutex.owner is not None:
+                # nobody else runs outside a controlled run: a lock a finished call still holds blocks for ever
+                raise Deadlock(f"acquire() of {self.mutex.name}, still held by a call that has returned")
             self.mutex.owner = me
             self.depth = 1
             return True
